@@ -6,7 +6,7 @@ tvars == <<vars, tid, l>>
 TInit == \E i \in 1..Len(Traces) : tid = i /\ l = 1 /\ InitCommon(Traces[i].conf)
 TStep(e) ==
   CASE e.a = "Handed"  -> EvHanded(e.t, e.v)
-    [] e.a = "Deliver" -> EvDeliver(e.t, e.v, e.d)
+    [] e.a = "Deliver" -> EvDeliver(e.t, e.v, e.d, e.c)
     [] e.a = "Final"   -> EvFinal(e.rows, e.rowsback, e.cfgok, e.bestT, e.bestL, e.pstats, e.ostats)
     [] e.a = "BestMore" -> EvBestMore(e.rows, e.t2, e.l2, e.p)
     [] e.a = "Crash"   -> EvCrash
